@@ -1,6 +1,14 @@
 import MakoModel.PyExpr.Ws
-/-! The implementation's `in_multi_line` state machine agrees with the lexical specification on hazard-free blocks
-(helper lemmas for C19: `adjust_ws_spec_partial`). -/
+/-! Helper lemmas for the re-margining theorems of C19.
+* lexer side (`adjust_ws_spec_partial`): simulation `lex_sim` between `adjust_whitespace`'s `in_multi_line` scanner and
+  the lexical specification `Spec.lexLine` on hazard-free lines, relation `Rel`, `flags_agree`, `adjust_agree`, and
+  what `Spec.remargin` guarantees (`remargin_length/_inside/_outside/_first`);
+* printer side (`flush_adjusted_spec_partial`): `count_parity` (the parity of the triple quotes `_in_multi_line`
+  counts = "the triple-quote state flips", on lines free of `Spec.scanHazardP`), relation `PRel`, `flush_agree`, and
+  what `Spec.reindent` guarantees (`reindent_length/_inside/_outside`, `pIndentLine_replace`);
+* composition (`remargin_roundtrip`): removing a margin of blanks leaves `lexLine`, `lineHazard`, `scanTriple`,
+  `scanHazardP` and `endsWithBackslash` alone (`*_blanks`), hence `remargin_preserves`; `reindent_remargin`;
+  `roundtrip_agree`, `roundtrip_inside/_outside`. -/
 set_option linter.unusedSimpArgs false
 set_option linter.unusedVariables false
 namespace MakoModel.PyExpr.Ws
